@@ -38,11 +38,28 @@ def main(tier, only=None):
     ck = Check('C02', tier, 'fault_enumeration')
     E2FSCK = tool('e2fsck')
     fsweep.init_scratch()
-    bases = only or (fsweep.QUICK_BASES if tier == 'quick' else fsweep.SWEEP_BASES)
+    bases = [b for b in only if b != 'geom'] if only else (fsweep.QUICK_BASES if tier == 'quick' else fsweep.SWEEP_BASES)
     ck.set_deadline(240 if tier == 'quick' else 2700)
     total = accepted = 0
     per = {}; viol_classes = {}
     sample = []
+    # geometry family first (cheap): every in-use inode of filesystems whose inode tables have every size 1..18 blocks per group, in every group
+    if not only or 'geom' in only:
+        from vlib import geom
+        gb = geom.build_geom(tier == 'quick')
+        gj = [(mid, name, parts) for name in gb for mid, parts in geom.inode_mutants(name)]
+        res = pmap(pipeline, gj, chunksize=16)
+        gacc = 0
+        for (mid, st, rc, codes, v, out), job in zip(res, gj):
+            total += 1
+            if st == 'rejected': continue
+            gacc += 1
+            if st == 'ACCEPTED_INCONSISTENT':
+                ck.violation(mid, {'base': job[1], 'parts': job[2], 'e2fsck_fn_exit': rc, 'problem_codes_printed': ['0x%06x' % c for c in codes], 'xck_violations': v,
+                                   'root_cause_class': classify(codes, v, out), 'e2fsck_output': out, 'runtime_base': True})
+        accepted += gacc
+        per['geometry_family'] = {'images': len(gb), 'per_inode_mutants': len(gj), 'accepted_by_e2fsck_fn': gacc}
+        if len(gb) < 4: ck.violation('geometry-family:vacuous', {'what': 'fewer than 4 geometry images could be built with the tree\'s mke2fs/debugfs', 'built': gb})
     for name in bases:
         r0 = pipeline(('%s/k0' % name, name, []))
         if r0[1] != 'ok':
@@ -85,7 +102,7 @@ def main(tier, only=None):
         if ck.expired():
             ck.add(exhaustive=False); break
     ck.add(evaluations=total, distinct_nontrivial=accepted, states=total, transitions=total, traces_validated_against_impl=total,
-           rule='same mutant space as C01 plus, for every block pointer of an inode or mapping block, a "+settle" variant in which the independent reader recomputes block bitmaps, free counts, i_blocks and checksums around the new pointer (so that only the range/ownership invariant is broken); each mutant: e2fsck -fn, and if it exits 0 the independent checker xck.check (groups R,A,L,S,K) must find nothing; '
+           rule='geometry family: runtime-built csum filesystems with inode tables of 1..18 blocks per group and inodes in use in every group x every in-use inode x {checksum-only damage, link count +1 resealed, i_blocks +2 resealed}; then the same mutant space as C01 plus, for every block pointer of an inode or mapping block, a "+settle" variant in which the independent reader recomputes block bitmaps, free counts, i_blocks and checksums around the new pointer (so that only the range/ownership invariant is broken); each mutant: e2fsck -fn, and if it exits 0 the independent checker xck.check (groups R,A,L,S,K) must find nothing; '
                 'distinct_nontrivial = mutants that e2fsck accepted (only those exercise the oracle)', samples=sample[:6])
     ck.cov['bases'] = per
     ck.assumptions += ['xck (tools/xck, written from the format description, cross-validated against e2fsck on the repo\'s f_* images by tools/xck_calibrate.py) is the trusted oracle',
@@ -97,6 +114,9 @@ def replay(path):
     global E2FSCK
     d = json.load(open(path)); det = d['detail']
     E2FSCK = tool('e2fsck'); fsweep.init_scratch()
-    r = pipeline((d['case'], det['base'], [tuple(x) for x in det['parts']]))
+    if det.get('runtime_base'):
+        from vlib import geom
+        geom.build_geom(False)          # deterministic: same images as in the run that reported the case
+    r = pipeline((d['case'], det['base'], [tuple(tuple(y) if isinstance(y, list) else y for y in x) for x in det['parts']]))
     print(json.dumps(r, indent=1)); print('replay verdict:', 'VIOLATION reproduced' if r[1] == 'ACCEPTED_INCONSISTENT' else r[1])
     return 1 if r[1] == 'ACCEPTED_INCONSISTENT' else 0
